@@ -330,7 +330,7 @@ def big_program(rng, nnames):
     used = 0
     while used < nnames * 3:
         sub = pool[used % len(pool):used % len(pool) + 40] or pool[:40]
-        p = progen.gen_program(rng, {'depth': 2, 'max_stmts': 5, 'names_extra': sub, 'glyph_names': False})
+        p = progen.gen_program(rng, {'depth': 2, 'max_stmts': 5, 'names_extra': sub, 'glyph_names': False, 'multiline_strings': False})
         off = len(big.toks) + 1
         big.stmts.append(len(big.toks))
         big.toks.append(('keyword', b'do'))
@@ -414,6 +414,12 @@ def run_shard(spec, ctx):
                 src = b''.join(b'local %s=%d\n%s+=other_%d\n' % (n, k, n, k) for k, n in enumerate(names))
                 ctx.feature('keepfile_names_by_first_byte', len(hs))
                 run_one(ctx, src, None, 'keep_file', sorted(set(names)), workdir, cli=grp % 60 == 0)
+            # listed names of every length from 1 to 48 characters (the longest reserved name has 15), plain and with a glyph
+            for variant in (b'', b'\x8e'):
+                names = [b'w', b'w2'] + [(b'q%d' % n + variant).ljust(n, b'_') for n in range(3, 49)]
+                src = b''.join(b'local %s=%d\n%s+=other_%d\n' % (n, k, n, k) for k, n in enumerate(names))
+                ctx.feature('keepfile_names_by_length', len(names))
+                run_one(ctx, src, None, 'keep_file', sorted(set(names)), workdir, cli=not variant)
         elif spec['kind'] == 'reuse':
             run_reuse(spec, ctx, workdir)
         elif spec['kind'] == 'big':
@@ -495,6 +501,8 @@ def gates(m, tier):
         missed.append('mappings checked: %d' % mon.get('mappings_checked', 0))
     if f.get('code_in_two_editor_tabs', 0) < 50:
         missed.append('programs with code in two editor tabs: %d' % f.get('code_in_two_editor_tabs', 0))
+    if f.get('keepfile_names_by_length', 0) < 96:
+        missed.append('keep-file names by length: %d of 96' % f.get('keepfile_names_by_length', 0))
     if f.get('keepfile_names_by_first_byte', 0) < 181 or mon.get('reused_args_runs', 0) < 40:
         missed.append('keep-file names by first byte: %d; runs with a reused writer-args dict: %d'
                       % (f.get('keepfile_names_by_first_byte', 0), mon.get('reused_args_runs', 0)))
